@@ -26,6 +26,37 @@ class Op:
         self.verdict = verdict  # False: out-of-domain probe, compared but never raises an alarm
 
 
+NOISE_DOCS = [' noise doc', 'second noise line', ' {braces} "q"']
+
+
+def add_noise(e: ESpec):
+    """Sprinkle attributes that the enum's derives must ignore or that the model handles anyway (deterministic in the
+    enum id): shared helpers parse every attribute for every derive, so a change made for one derive can leak into another."""
+    import hashlib
+    h = int(hashlib.sha1(e.id.encode()).hexdigest(), 16)
+    if h % 3 != 0 or e.extra.get('no_noise'):
+        return
+    consumes = set(e.derives)
+    for k, v in enumerate(e.variants):
+        r = (h >> (k * 5)) & 31
+        if 'EnumString' not in consumes and v.ci is None and r & 1:
+            v.ci = bool(r & 2)
+        if 'EnumMessage' not in consumes:
+            if v.msg is None and r & 4:
+                v.msg = 'noise message %d' % k
+            if v.det is None and r & 8:
+                v.det = 'noise detail %d' % k
+            if not v.docs and r & 16:
+                v.docs = NOISE_DOCS[:1 + k % 3]
+        if 'EnumProperty' not in consumes and not v.props and r & 2:
+            v.props = [('noise', 's', 'v%d' % k), ('n', 'i', k - 2)]
+        if v.attr_layout == 'one':
+            v.attr_layout = ['one', 'split', 'rev', 'revsplit'][(r >> 1) % 4]
+    if 'EnumString' not in consumes and (h >> 40) & 1:
+        e.ci = True
+    e.extra['noise'] = True
+
+
 class Corpus:
     def __init__(self):
         self.especs = []
@@ -34,6 +65,7 @@ class Corpus:
 
     def add(self, e: ESpec, in_domain=True):
         assert e.id not in self.by_id, e.id
+        add_noise(e)
         e.extra.setdefault('in_domain', in_domain)
         self.especs.append(e)
         self.by_id[e.id] = e
